@@ -374,7 +374,7 @@ fn main() {
         let mut fls: Vec<Fl> = vec![];
         if i % 3 != 2 { fls.push(Fl::Lower); }
         if i % 5 == 0 { let cur = run(&mut build(&tk, &fls), &text).unwrap_or_default(); fls.push(gen_filter(&mut rng, &cur)); }
-        let toks = match run(&mut build(&tk, &fls), &text) { Ok(t) => t, Err(_) => continue };
+        let toks = match run(&mut build(&tk, &fls), &text) { Ok(t) => t, Err(e) => { out.spec_checked(false, json!({"what": "analyzer panicked (token_stream/advance)", "text": text, "tokenizer": format!("{:?}", tk), "filters": format!("{:?}", fls), "panic": e})); continue; } };
         // index with this analyzer; `copies` identical documents => every term has doc_freq = copies
         let copies = *rng.pick(&[1usize, 1, 3, 7, 2]);
         let mut sb = Schema::builder();
@@ -470,7 +470,7 @@ fn main() {
         let text = { let mut t = gen_text(&mut rng, 6 + (i % 5)); if t.chars().count() > 50 { t = t.chars().take(50).collect(); } t };
         let tk = if i % 4 == 0 { Tk::Whitespace } else { Tk::Simple };
         let fls = if i % 2 == 0 { vec![Fl::Lower] } else { vec![] };
-        let toks = match run(&mut build(&tk, &fls), &text) { Ok(t) => t, Err(_) => continue };
+        let toks = match run(&mut build(&tk, &fls), &text) { Ok(t) => t, Err(e) => { out.spec_checked(false, json!({"what": "analyzer panicked (token_stream/advance)", "text": text, "tokenizer": format!("{:?}", tk), "filters": format!("{:?}", fls), "panic": e})); continue; } };
         let mut terms: BTreeMap<String, f32> = BTreeMap::new();
         for _ in 0..rng.range(1, 4) { if !toks.is_empty() { terms.insert(rng.pick(&toks).text.to_lowercase(), rng.range(1, 64) as f32 / 64.0); } }
         let max = rng.below(text.len() as u64 + 2) as usize;
@@ -511,8 +511,8 @@ fn main() {
             fls.push(if j == split_at { Fl::Split(vec!["dampf".into(), "schiff".into(), "fahrt".into(), "ab".into(), "c".into()]) } else { gen_filter(&mut rng, &cur) });
         }
         let text_b = match i % 4 { 0 => String::new(), 1 => "öl".to_string(), _ => { let mut t = gen_text(&mut rng, 5 + (i % 6)); if t.chars().count() > 60 { t = t.chars().take(60).collect(); } t } };
-        let full_a = match run(&mut build(&tk, &fls), &text_a) { Ok(t) => t, Err(_) => continue };
-        let fresh_b = match run(&mut build(&tk, &fls), &text_b) { Ok(t) => t, Err(_) => continue };
+        let full_a = match run(&mut build(&tk, &fls), &text_a) { Ok(t) => t, Err(e) => { out.spec_checked(false, json!({"what": "analyzer panicked (token_stream/advance)", "text": text_a, "tokenizer": format!("{:?}", tk), "filters": format!("{:?}", fls), "panic": e})); continue; } };
+        let fresh_b = match run(&mut build(&tk, &fls), &text_b) { Ok(t) => t, Err(e) => { out.spec_checked(false, json!({"what": "analyzer panicked (token_stream/advance)", "text": text_b, "tokenizer": format!("{:?}", tk), "filters": format!("{:?}", fls), "panic": e})); continue; } };
         let mut analyzer = build(&tk, &fls);
         // every stopping point in quick would be too many: a few random k, always including "inside a compound" candidates
         let mut ks: Vec<usize> = vec![0, full_a.len()];
@@ -584,6 +584,53 @@ fn main() {
             out.coq_case("tie", format!("otokens_eqb ({}) {}", analyze_term(&o, &tk, &fls, &text), toks_term(&toks)), desc.clone(), !toks.is_empty());
             out.coq_case("spec", format!("tokens_spec {} {}", cps(&text), toks_term(&toks)), desc.clone(), !toks.is_empty());
             if fls.is_empty() { out.coq_case("spec", format!("tokens_text_spec {} {}", cps(&text), toks_term(&toks)), desc.clone(), !toks.is_empty()); }
+        }
+    }
+
+
+    // ================= (vi) edges: every tokenizer on texts that begin / end (no trailing separator) with a
+    //                   token of exactly one multi-byte character =================
+    {
+        let mbs = ["é", "à", "ß", "€", "我", "語", "👍", "𝒳", "\u{a0}", "\u{3000}", "\u{301}", "٣", "İ"];   // 2-, 3- and 4-byte characters
+        let mut tokenizers: Vec<Tk> = vec![Tk::Simple, Tk::Whitespace, Tk::Raw, Tk::Facet,
+            Tk::Ngram(1, 1, false), Tk::Ngram(1, 2, false), Tk::Ngram(2, 3, false), Tk::Ngram(1, 3, true), Tk::Ngram(3, 4, true)];
+        for p in REGEXES { tokenizers.push(Tk::Regex(p.to_string())); }
+        let mut texts: Vec<String> = vec![];
+        for m in mbs {
+            texts.push(m.to_string());
+            for sep in [" ", "\t", "\n", "\u{0}", ", ", "-"] {
+                texts.push(format!("total: 5{}{}", sep, m));          // ends in a one-character multi-byte token
+                texts.push(format!("{}{}ok then", m, sep));            // begins with one
+                texts.push(format!("{}{}{}", m, sep, m));
+                texts.push(format!("voilà{}{}", sep, m));
+            }
+        }
+        let extra = if thorough { 400 } else { 60 };
+        for k in 0..extra {
+            let mut t = gen_text(&mut rng, 5 + (k % 7));
+            if t.chars().count() > 40 { t = t.chars().take(40).collect(); }
+            let m = *rng.pick(&mbs); let sep = *rng.pick(&[" ", "\t", "\n", "\u{0}", "-", "\r\n"]);
+            texts.push(match k % 3 { 0 => format!("{}{}{}", t, sep, m), 1 => format!("{}{}{}", m, sep, t), _ => format!("{}{}{}{}{}", m, sep, t, sep, m) });
+        }
+        let mut coq_edge: i64 = if thorough { 400 } else { 120 };
+        for (ti, text) in texts.iter().enumerate() {
+            for (ki, tk) in tokenizers.iter().enumerate() {
+                let fls: Vec<Fl> = if (ti + ki) % 4 == 3 { vec![Fl::Lower] } else { vec![] };
+                let desc = json!({"what": "edge tokens", "text": text, "tokenizer": format!("{:?}", tk), "filters": format!("{:?}", fls)});
+                out.count("edge_cases", 1);
+                let toks = match run(&mut build(tk, &fls), text) { Ok(t) => t,
+                    Err(e) => { out.spec_checked(false, json!({"what": "analyzer panicked (token_stream/advance)", "case": desc, "panic": e})); continue; } };
+                out.spec_checked(spans_ok(text, &toks), json!({"what": "token offsets outside the text / off a boundary / positions decrease", "case": desc, "tokens": format!("{:?}", &toks[..toks.len().min(40)])}));
+                if fls.is_empty() && !matches!(tk, Tk::Facet) {
+                    out.spec_checked(texts_ok(text, &toks), json!({"what": "token text differs from the slice it points to", "case": desc, "tokens": format!("{:?}", &toks[..toks.len().min(40)])}));
+                }
+                if coq_edge > 0 && (ti * 7 + ki) % 11 == 0 {
+                    coq_edge -= 1;
+                    let o = oracles(text, tk, &fls);
+                    out.coq_case("tie", format!("otokens_eqb ({}) {}", analyze_term(&o, tk, &fls, text), toks_term(&toks)), desc.clone(), !toks.is_empty());
+                    out.coq_case("spec", format!("tokens_spec {} {}", cps(text), toks_term(&toks)), desc.clone(), !toks.is_empty());
+                }
+            }
         }
     }
 
